@@ -21,7 +21,7 @@ type C12Case struct {
 }
 
 func GenC12() *rapid.Generator[C12Case] {
-	ng := genNet(NetCfg{})
+	ng := genNet(NetCfg{LongChains: true, Rename: true})
 	return rapid.Custom(func(t *rapid.T) C12Case {
 		c := C12Case{Net: ng.Draw(t, "net"), Extra: rapid.IntRange(0, 3).Draw(t, "extra steps")}
 		nIn, _, _, _ := c.Net.counts()
@@ -81,6 +81,12 @@ func CheckC12(c C12Case, rec *Rec) error {
 	}
 	if depth >= 3 {
 		rec.Class("depth >= 3")
+	}
+	if c.Net.Renamed {
+		rec.Class("node list does not start with the sensors")
+	}
+	if depth > 20 {
+		rec.Class("depth above 20")
 	}
 	if len(c.Net.OutOrder) > 0 {
 		rec.Class("output list in another order than the node list")
